@@ -274,59 +274,9 @@ pub fn global_parse_int(
         Some(v) => interp.to_js_string(v),
         None => interp.intern(""),
     };
-    let string = string.as_str().to_string();
-    let radix = args.get(1).map(|v| v.to_number() as i32).unwrap_or(10);
-
-    // Trim whitespace
-    let s = string.trim();
-
-    if s.is_empty() {
-        return Ok(Guarded::unguarded(JsValue::Number(f64::NAN)));
-    }
-
-    // Handle radix
-    let radix = if radix == 0 { 10 } else { radix };
-    if !(2..=36).contains(&radix) {
-        return Ok(Guarded::unguarded(JsValue::Number(f64::NAN)));
-    }
-
-    // Handle sign
-    let (negative, s) = if let Some(rest) = s.strip_prefix('-') {
-        (true, rest)
-    } else if let Some(rest) = s.strip_prefix('+') {
-        (false, rest)
-    } else {
-        (false, s)
-    };
-
-    // Handle hex prefix for radix 16
-    let s = if radix == 16 {
-        s.strip_prefix("0x")
-            .or_else(|| s.strip_prefix("0X"))
-            .unwrap_or(s)
-    } else {
-        s
-    };
-
-    // Parse digits until invalid character
-    let mut result: i64 = 0;
-    let mut found_digit = false;
-
-    for c in s.chars() {
-        let digit = match c.to_digit(radix as u32) {
-            Some(d) => d as i64,
-            None => break,
-        };
-        found_digit = true;
-        result = result * (radix as i64) + digit;
-    }
-
-    if !found_digit {
-        return Ok(Guarded::unguarded(JsValue::Number(f64::NAN)));
-    }
-
-    let result = if negative { -result } else { result };
-    Ok(Guarded::unguarded(JsValue::Number(result as f64)))
+    let radix = args.get(1).map(|v| v.to_number()).unwrap_or(0.0);
+    let result = crate::value::parse_int_prefix(string.as_str(), radix);
+    Ok(Guarded::unguarded(JsValue::Number(result)))
 }
 
 pub fn global_parse_float(
